@@ -748,16 +748,23 @@ func (s *Server) luaTile38Call(evalcmd string, cmd string, args ...string) (resp
 		return resp.NullValue(), errCmdNotSupported
 	}
 
+	var res resp.Value
+	var err error
 	switch evalcmd {
 	case "eval", "evalsha":
-		return s.luaTile38AtomicRW(msg)
+		res, err = s.luaTile38AtomicRW(msg)
 	case "evalro", "evalrosha":
-		return s.luaTile38AtomicRO(msg)
+		res, err = s.luaTile38AtomicRO(msg)
 	case "evalna", "evalnasha":
-		return s.luaTile38NonAtomic(msg)
+		res, err = s.luaTile38NonAtomic(msg)
+	default:
+		return resp.NullValue(), errCmdNotSupported
 	}
-
-	return resp.NullValue(), errCmdNotSupported
+	if lfs, ok := err.(liveFenceSwitches); ok {
+		// a script cannot go live: nobody will own the fence's interpreters
+		lfs.Close()
+	}
+	return res, err
 }
 
 // The eval command has already got the lock. No locking on the call from within the script.
